@@ -97,12 +97,26 @@ struct VFilter : Filter
 
 union SinkSlot { RecSink s; SinkSlot() {} ~SinkSlot() {} };   // never destroyed: virtual destructors are not the subject
 static SinkSlot g_s1, g_s2;
+// filter objects and the sinks' filter vectors live in TYPED static storage (rt/vrt.c VLL_NEW_HOOK; concrete begin/end):
+// reads of their fields fold to constants during symbolic execution, malloc'ed blocks are untyped byte arrays
+union VFSlot { VFilter f; VFSlot() {} ~VFSlot() {} };
+static VFSlot g_vf0, g_vf1, g_vf2; static uint32_t g_vf_n;
+extern "C" void* vh_new(uint64_t n)
+{
+  if (n != sizeof(VFilter) || g_vf_n >= 3) return nullptr;
+  uint32_t k = g_vf_n++;
+  return k == 0 ? static_cast<void*>(&g_vf0) : k == 1 ? static_cast<void*>(&g_vf1) : static_cast<void*>(&g_vf2);
+}
+extern "C" int vh_owns(void* p) { return p == &g_vf0 || p == &g_vf1 || p == &g_vf2; }
+static Filter* g_lf1[4]; static Filter* g_lf2[4]; static Filter* g_gf1[4]; static Filter* g_gf2[4];
+template <typename V, typename T> static void static_vec(V& v, T* store) { v._M_impl._M_start = store; v._M_impl._M_finish = store; v._M_impl._M_end_of_storage = store + 4; }
 extern "C" void h_sink_filters()
 {
   RecSink& s1 = *new (&g_s1.s) RecSink(); RecSink& s2 = *new (&g_s2.s) RecSink();
   // no vector reallocation later: libstdc++ relocates raw pointers with memmove, and CBMC's symbolic execution loses track
   // of a pointer that went through a byte-wise copy
-  s1._local_filters.reserve(4); s1._global_filters.reserve(4); s2._local_filters.reserve(4); s2._global_filters.reserve(4);
+  static_vec(s1._local_filters, g_lf1); static_vec(s2._local_filters, g_lf2);
+  static_vec(s1._global_filters, reinterpret_cast<std::unique_ptr<Filter>*>(g_gf1)); static_vec(s2._global_filters, reinterpret_cast<std::unique_ptr<Filter>*>(g_gf2));
   LogLevel t1 = static_cast<LogLevel>(vnd_range(0, 10)), t2 = static_cast<LogLevel>(vnd_range(0, 10));
   s1.set_log_level_filter(t1); s2.set_log_level_filter(t2);
   bool v1 = vnd_bool(), v2 = vnd_bool(), v3 = vnd_bool();
